@@ -243,6 +243,38 @@ def run(ctx):
                         why = "not linear in the integrand"
                 if why:
                     ctx.violation("quad/laws/n=%d" % nq, "quad(n=%d): %s" % (nq, why), {"n": nq})
+        # degree 0: the integrand hands back one of the caller's tensors (a parameter, a tensor held by its object, a view of it)
+        class _Const(torch.nn.Module):
+            def __init__(self, w):
+                super().__init__()
+                self.w = torch.nn.Parameter(w)
+
+            def forward(self, x):
+                return self.w
+        for nq in (1, 2, 5):
+            for kind in ("parameter", "view", "module"):
+                n += 1
+                ctx.case(key=("constant-integrand", nq, kind))
+                cvec = torch.tensor([0.5, -2.0, 3.0], dtype=DT)
+                c0 = cvec.clone()
+                try:
+                    if kind == "module":
+                        mod = _Const(cvec.clone())
+                        got = xitorch.integrate.quad(mod.forward, -1.0, 3.0, n=nq)
+                        kept = mod.w.detach()
+                    elif kind == "view":
+                        got = xitorch.integrate.quad(lambda x, c: c[:2], -1.0, 3.0, params=(cvec,), n=nq)
+                        kept = cvec
+                    else:
+                        got = xitorch.integrate.quad(lambda x, c: c, -1.0, 3.0, params=(cvec,), n=nq)
+                        kept = cvec
+                    exp = 4.0 * (c0[:2] if kind == "view" else c0)
+                    if not torch.allclose(got.detach(), exp, atol=1e-13):
+                        ctx.violation("quad/laws/constant", "quad(n=%d) of the constant integrand returning its %s over [-1, 3]: %s, exact %s" % (nq, kind, got.detach().tolist(), exp.tolist()), {"n": nq, "kind": kind})
+                    elif not torch.equal(kept, c0):
+                        ctx.violation("quad/laws/constant-modified", "quad(n=%d) overwrote the tensor its integrand returned (%s): %s, was %s" % (nq, kind, kept.tolist(), c0.tolist()), {"n": nq, "kind": kind})
+                except Exception as e:
+                    ctx.violation("quad/laws/constant", "quad(n=%d) of a constant integrand (%s) raised %s: %s" % (nq, kind, type(e).__name__, str(e)[:100]), {"n": nq, "kind": kind})
         n += 1
         ctx.case(key=("tuple",))
         res = xitorch.integrate.quad(lambda x: (torch.as_tensor(x, dtype=DT) ** 2 * torch.ones(2, dtype=DT), torch.as_tensor(x, dtype=DT).reshape(1, 1) * 3.0), 0.0, 2.0, n=4)
@@ -279,7 +311,7 @@ def run(ctx):
         ctx.expect_violation(t2, cf2, inv="RuleInCallPrecision", label="deviation KeyedByPrecision", workers=4, timeout=300)
         ctx.check_proof("QuadHistory_proofs")      # histories of any length
         from vlib import resulthistory
-        nhist += resulthistory.replay(ctx, ["quad", "mcquad"], "quad")
+        nhist += resulthistory.replay(ctx, ["quad", "mcquad", "quad:alias", "mcquad:alias"], "quad")
         full = sorted([h_["hist"] for h_ in hnodes.values() if len(h_["hist"]) == 3], key=lambda h_: [(c_["call"]["dtype"], c_["call"]["n"]) for c_ in h_])
         TD = {"f32": torch.float32, "f64": torch.float64}
         for hi, hist in enumerate(full):
